@@ -1,0 +1,226 @@
+// Copyright 2024 Kelvin Clement Mwinuka
+//
+// Licensed under the Apache License, Version 2.0 (the "License");
+// you may not use this file except in compliance with the License.
+// You may obtain a copy of the License at
+//
+//      http://www.apache.org/licenses/LICENSE-2.0
+//
+// Unless required by applicable law or agreed to in writing, software
+// distributed under the License is distributed on an "AS IS" BASIS,
+// WITHOUT WARRANTIES OR CONDITIONS OF ANY KIND, either express or implied.
+// See the License for the specific language governing permissions and
+// limitations under the License.
+
+package internal
+
+import (
+	"encoding/base64"
+	"encoding/json"
+	"fmt"
+	"sort"
+	"strconv"
+	"time"
+	"unicode/utf8"
+)
+
+// The JSON form of KeyData used by snapshots, the AOF preamble and raft snapshots names the type of the value,
+// so that restoring gives back a value of the same type with the same contents: encoding/json on its own turns
+// every number into a float64, a []string into []interface{} and a set or sorted set into an empty object.
+
+// TypedValue is implemented by composite value types (set, sorted set) that encode themselves.
+type TypedValue interface {
+	// ValueTypeName is the name under which the decoder of this type is registered with RegisterValueType.
+	ValueTypeName() string
+}
+
+var valueDecoders = map[string]func(raw []byte) (interface{}, error){}
+
+// RegisterValueType registers the decoder of a composite value type. It is called from the type's package init.
+func RegisterValueType(name string, decode func(raw []byte) (interface{}, error)) {
+	valueDecoders[name] = decode
+}
+
+// EncodeString makes a string safe for JSON: valid UTF-8 is kept readable ("s" + text),
+// anything else is carried as base64 ("b" + base64) so that no byte is altered.
+func EncodeString(s string) string {
+	if utf8.ValidString(s) {
+		return "s" + s
+	}
+	return "b" + base64.StdEncoding.EncodeToString([]byte(s))
+}
+
+// DecodeString is the inverse of EncodeString.
+func DecodeString(t string) (string, error) {
+	if len(t) == 0 {
+		return "", fmt.Errorf("empty encoded string")
+	}
+	switch t[0] {
+	case 's':
+		return t[1:], nil
+	case 'b':
+		b, err := base64.StdEncoding.DecodeString(t[1:])
+		return string(b), err
+	}
+	return "", fmt.Errorf("unknown string encoding %q", t[:1])
+}
+
+// EncodeFloat / DecodeFloat carry a float64 as text, so that infinities survive.
+func EncodeFloat(f float64) string { return strconv.FormatFloat(f, 'g', -1, 64) }
+
+func DecodeFloat(t string) (float64, error) { return strconv.ParseFloat(t, 64) }
+
+// encodeScalar encodes a string, int, int64 or float64 as one tagged string.
+func encodeScalar(v interface{}) (string, bool) {
+	switch x := v.(type) {
+	case string:
+		return EncodeString(x), true
+	case int:
+		return "i" + strconv.Itoa(x), true
+	case int64:
+		return "l" + strconv.FormatInt(x, 10), true
+	case float64:
+		return "f" + EncodeFloat(x), true
+	}
+	return "", false
+}
+
+func decodeScalar(t string) (interface{}, error) {
+	if len(t) == 0 {
+		return nil, fmt.Errorf("empty encoded value")
+	}
+	switch t[0] {
+	case 's', 'b':
+		return DecodeString(t)
+	case 'i':
+		return strconv.Atoi(t[1:])
+	case 'l':
+		return strconv.ParseInt(t[1:], 10, 64)
+	case 'f':
+		return DecodeFloat(t[1:])
+	}
+	return nil, fmt.Errorf("unknown value encoding %q", t[:1])
+}
+
+type keyDataJSON struct {
+	Type     string          `json:"Type"`
+	Value    json.RawMessage `json:"Value"`
+	ExpireAt time.Time       `json:"ExpireAt"`
+}
+
+func (k KeyData) MarshalJSON() ([]byte, error) {
+	out := keyDataJSON{ExpireAt: k.ExpireAt}
+	var payload interface{}
+	switch v := k.Value.(type) {
+	case nil:
+		out.Type, payload = "nil", nil
+	case string, int, int64, float64:
+		s, _ := encodeScalar(v)
+		out.Type, payload = "scalar", s
+	case []string:
+		elems := make([]string, len(v))
+		for i, e := range v {
+			elems[i] = EncodeString(e)
+		}
+		out.Type, payload = "list", elems
+	case map[string]interface{}:
+		fields := make([]string, 0, len(v))
+		for f := range v {
+			fields = append(fields, f)
+		}
+		sort.Strings(fields)
+		pairs := make([][2]string, 0, len(v))
+		for _, f := range fields {
+			s, ok := encodeScalar(v[f])
+			if !ok {
+				return nil, fmt.Errorf("hash field %q holds a value of unsupported type %T", f, v[f])
+			}
+			pairs = append(pairs, [2]string{EncodeString(f), s})
+		}
+		out.Type, payload = "hash", pairs
+	case TypedValue:
+		out.Type, payload = v.ValueTypeName(), v
+	default:
+		return nil, fmt.Errorf("type %T is not supported in KeyData.MarshalJSON()", v)
+	}
+	raw, err := json.Marshal(payload)
+	if err != nil {
+		return nil, err
+	}
+	out.Value = raw
+	return json.Marshal(out)
+}
+
+func (k *KeyData) UnmarshalJSON(b []byte) error {
+	var in keyDataJSON
+	if err := json.Unmarshal(b, &in); err != nil {
+		return err
+	}
+	k.ExpireAt = in.ExpireAt
+	switch in.Type {
+	case "":
+		// A file written before values were typed: keep what encoding/json makes of it.
+		var v interface{}
+		if len(in.Value) > 0 {
+			if err := json.Unmarshal(in.Value, &v); err != nil {
+				return err
+			}
+		}
+		k.Value = v
+	case "nil":
+		k.Value = nil
+	case "scalar":
+		var s string
+		if err := json.Unmarshal(in.Value, &s); err != nil {
+			return err
+		}
+		v, err := decodeScalar(s)
+		if err != nil {
+			return err
+		}
+		k.Value = v
+	case "list":
+		var elems []string
+		if err := json.Unmarshal(in.Value, &elems); err != nil {
+			return err
+		}
+		list := make([]string, len(elems))
+		for i, e := range elems {
+			s, err := DecodeString(e)
+			if err != nil {
+				return err
+			}
+			list[i] = s
+		}
+		k.Value = list
+	case "hash":
+		var pairs [][2]string
+		if err := json.Unmarshal(in.Value, &pairs); err != nil {
+			return err
+		}
+		hash := make(map[string]interface{}, len(pairs))
+		for _, p := range pairs {
+			f, err := DecodeString(p[0])
+			if err != nil {
+				return err
+			}
+			v, err := decodeScalar(p[1])
+			if err != nil {
+				return err
+			}
+			hash[f] = v
+		}
+		k.Value = hash
+	default:
+		decode, ok := valueDecoders[in.Type]
+		if !ok {
+			return fmt.Errorf("no decoder registered for value type %q", in.Type)
+		}
+		v, err := decode(in.Value)
+		if err != nil {
+			return err
+		}
+		k.Value = v
+	}
+	return nil
+}
